@@ -26,7 +26,9 @@
 //     all map to the origin has a box which cannot be told from an empty one.
 //     The oracle therefore accepts both readings for such a glyph (its box
 //     skipped, or the origin included) and nothing else: a glyph without end
-//     points never contributes, every other glyph must contribute.
+//     points never contributes, every other glyph must contribute.  One
+//     consistency rule on top: when the font matrix has no translation,
+//     FontBBox and FontBBoxPDF must take the same reading.
 //   - widths: GlyphWidthPDF(name) = WidthX * a * 1000 for a glyph of the font,
 //     the value for .notdef for any other name, 0 if there is no .notdef;
 //     WidthsMapPDF has exactly the glyphs of the font as keys and agrees with
@@ -252,6 +254,7 @@ func verdict(fs []finding, render func() string, outcome string, nontrivial bool
 }
 
 func flat(r rect.Rect) [4]float64 { return [4]float64{r.LLx, r.LLy, r.URx, r.URy} }
+func flat2(b geomref.Box) [4]float64 { return b.Flat() }
 
 func closeBox(got [4]float64, want geomref.Box, scale float64) bool {
 	w := want.Flat()
@@ -291,7 +294,7 @@ func (fc fontCase) width(i int) float64 {
 func checkFont(c *mc.Ctx, fc fontCase) mc.Verdict {
 	set, _ := setOfMask(fc.mask)
 	f := &type1.Font{
-		FontInfo: &type1.FontInfo{FontName: "Test", FontMatrix: matrix.Matrix(fc.fm)},
+		FontInfo: &type1.FontInfo{FontName: "Test", FontMatrix: matrix.Matrix(fc.fm), IsFixedPitch: (fc.mask+fc.outline[1])%2 == 1, ItalicAngle: []float64{0, -12, 0}[(fc.mask+fc.outline[2])%3]},
 		Glyphs:   map[string]*type1.Glyph{},
 		Encoding: fc.enc,
 	}
@@ -469,6 +472,18 @@ func checkFont(c *mc.Ctx, fc fontCase) mc.Verdict {
 		add("type1.FontBBoxPDF:wrong", "FontBBoxPDF() = %v, union of the non-empty glyph boxes is %v (glyphs mapped onto the origin: %v)", fbp, geomref.Union(mustPDF), mayPDF)
 	}
 
+	// Whichever reading is taken for a glyph whose end points all lie at the
+	// origin, it is one reading: without a translation in the font matrix the
+	// glyph is at the origin in both spaces, and the two font boxes must either
+	// both count it or both skip it.
+	if okGS && okPDF && mayGS && mayPDF && fc.fm[4] == 0 && fc.fm[5] == 0 {
+		gsCounts := fb != geomref.Union(mustGS).Flat()
+		pdfCounts := !closeBox(fbp, geomref.Union(mustPDF), maxScale)
+		if gsCounts != pdfCounts && geomref.Union(mustGS).Flat() != geomref.Union(append(mustGS, geomref.Box{})).Flat() && !closeBox(flat2(geomref.Union(append(mustPDF, geomref.Box{}))), geomref.Union(mustPDF), maxScale) {
+			add("type1.FontBBox:origin-glyph-counted-in-one-box-only", "FontBBox() = %v and FontBBoxPDF() = %v: a glyph whose end points all lie at the origin is counted in one of them and skipped in the other", fb, fbp)
+		}
+	}
+
 	outcome := fmt.Sprintf("type1 glyphs=%d fontbox=%s origin-glyph=%v", len(set), map[bool]string{true: "zero", false: "nonzero"}[fbp == [4]float64{}], mayPDF || mayGS)
 	nontrivial := len(list) > 1 || fbp != [4]float64{} || f.GlyphWidthPDF(".notdef") != 0
 	if deep {
@@ -517,6 +532,10 @@ func (ac afmCase) String() string {
 func checkMetrics(c *mc.Ctx, ac afmCase) mc.Verdict {
 	set, _ := setOfMask(ac.mask)
 	m := &afm.Metrics{Glyphs: map[string]*afm.GlyphInfo{}, Encoding: ac.enc, FontName: "Test"}
+	// header fields that say something about the widths without defining any
+	// (a pure function of the case: half of the cases are "fixed pitch", a third italic)
+	m.IsFixedPitch = (ac.mask+ac.box[1])%2 == 1
+	m.ItalicAngle = []float64{0, -12, 0}[(ac.mask+ac.box[2])%3]
 	var boxes []geomref.Box
 	for i, n := range namePool {
 		if set[n] {
